@@ -158,7 +158,31 @@ class PathWorld:
         return None
 
     def compare(self, ip, a, sym, b, node):
+        if isinstance(a, HopV) and isinstance(b, HopV):
+            # hops are (source, destination, time) tuples: tuple comparison looks at the node labels first, and nothing is
+            # known about how the labels of generic paths compare - every outcome is explored
+            c = self._hop_cmp(ip, a, b, node)
+            return {"<": c < 0, "<=": c <= 0, ">": c > 0, ">=": c >= 0, "==": c == 0, "!=": c != 0}[sym]
         return None
+
+    def _hop_cmp(self, ip, a, b, node):
+        ka, kb = (a.path.i, a.pos), (b.path.i, b.pos)
+        if ka == kb:
+            return 0
+        flip = ka > kb
+        if flip:
+            a, b, ka, kb = b, a, kb, ka
+        c = 0
+        for field in ("source", "destination"):
+            if self.choose(("hop-labels-equal", ka, kb, field)):
+                continue
+            c = -1 if self.choose(("hop-label-less", ka, kb, field)) else 1
+            break
+        if c == 0:
+            ta = Int(("R%d" if a.pos == -1 else "S%d") % a.path.i)
+            tb = Int(("R%d" if b.pos == -1 else "S%d") % b.path.i)
+            c = 0 if ip.cmp_int(ta, tb, "==", node) else (-1 if ip.cmp_int(ta, tb, "<", node) else 1)
+        return -c if flip else c
 
     def call_minmax(self, ip, name, args, node):
         return None
@@ -259,6 +283,11 @@ def check_annotate_paths(repo: Repo, rep: Report, tier="quick"):
                         return ip.call_function(fn, {"paths": paths}), None
                     except AbstractRaise as r:
                         return None, r
+                if findings and stats["runs"] > 8000:
+                    # the verdict is established (violations found); data-dependent choices would multiply the runs without
+                    # changing it
+                    stats["truncated"] = True
+                    return
                 for ch, (val, r) in run_all_choices(once, max_runs=64):
                     stats["runs"] += 1
                     wit = "paths listed as %s | %s" % (list("P%d" % i for i in perm), mot.describe())
